@@ -141,7 +141,7 @@ Lemma source_inventory_ok : source_inventory_reviewed = true.
 Proof. reflexivity. Qed.
 
 Lemma source_all_guarded : forall s, s <> S_genid_number_range -> source_variant s = true.
-Proof. intros s Hs. destruct s; try reflexivity. contradiction Hs; reflexivity. Qed.
+Proof. intros s Hs. destruct s; try reflexivity; (contradiction Hs; reflexivity). Qed.
 
 Lemma source_all_guarded_given : source_variant S_genid_number_range = true -> all_guarded source_variant.
-Proof. intros H s. destruct s; try reflexivity. exact H. Qed.
+Proof. intros H s. destruct s; try reflexivity; exact H. Qed.
